@@ -381,13 +381,13 @@ def check(run):
     run.ob("R4-percent", "decoders.network.normalize_percent_encoding/escape-pattern", oks, w(npe.node), "an escape is % followed by exactly two hex digits, and every escape of the text is visited",
            "", mech="language equality")
     rets = [n for n in own_nodes(npe.node) if isinstance(n, ast.Return)]
-    okl = False
-    if len(rets) == 1 and isinstance(rets[0].value, ast.Tuple) and len(rets[0].value.elts) == 2:
-        v, lab = rets[0].value.elts
-        sub_t = common.enclosing_stmt(subs[0]).targets[0].id if subs and isinstance(common.enclosing_stmt(subs[0]), ast.Assign) else None
-        azl = G.Atomizer(is_int=lambda e: True, rename={sub_t: "NORM", npe.params[0]: "URI"} if sub_t else {})
-        okl = isinstance(lab, ast.IfExp) and prog.try_fold(nm, lab.body) == "escape.percent" and prog.try_fold(nm, lab.orelse) == "" and common.is_name(v, sub_t) and \
-            G.equivalent(azl.formula(lab.test), azl.formula(common.spec_expr("len(NORM) < len(URI)")))[0]
+    sub_t = common.enclosing_stmt(subs[0]).targets[0].id if subs and isinstance(common.enclosing_stmt(subs[0]), ast.Assign) else None
+    ren_l = {sub_t: "NORM", npe.params[0]: "URI"} if sub_t else {}
+    f_lab, f_emp, other = common.label_conditions(prog, nm, npe, "escape.percent", lambda env: G.Atomizer(is_int=lambda e: True, rename=ren_l,
+                                                                                                     subst={k: v for k, v in env.items() if k != sub_t}))
+    shorter = G.Atomizer(is_int=lambda e: True).formula(common.spec_expr("len(NORM) < len(URI)"))
+    okl = bool(rets) and all(isinstance(r_.value, ast.Tuple) and len(r_.value.elts) == 2 and common.is_name(r_.value.elts[0], sub_t) for r_ in rets) and \
+        not other and G.equivalent(f_lab, shorter)[0] and G.equivalent(f_emp, G.f_not(shorter))[0]
     run.ob("R4-percent", "decoders.network.normalize_percent_encoding/label-guard", okl, w(npe.node), "labelled escape.percent exactly when normalisation shortened the text", "",
            mech="truth table with integer theory")
     # the URL node's value is that normalised text and its span the (possibly trimmed) match
